@@ -235,6 +235,8 @@ inductive Label where
   | sSend (m : Msg)
   | sEnd
   | envPut (it : Item)
+  /-- the transport delivered a client message although it reported the write as failed -/
+  | envLate (m : CMsg)
 deriving DecidableEq, Repr, Inhabited
 
 /-! ### association-list helpers -/
@@ -575,6 +577,8 @@ def stepEnv (s : State) : Label → Option State
     if s.srv.ended = false then
       some { s with s2c := s.s2c ++ [it], srv := { s.srv with ended := it.sticky } }
     else none
+  -- a write side that fails independently: the bytes of a write reported as failed reach the peer
+  | .envLate m => some { s with c2s := s.c2s ++ [m] }
   | _ => none
 
 /-- which thread owns a label -/
@@ -589,7 +593,7 @@ def Label.owner : Label → Owner
   | .lRead _ | .lDeliver _ | .lCheck _ | .lExit _ => .loop
   | .wCheck _ | .wRecv .. | .wClosed _ | .wCancel _ | .wSend .. => .writer
   | .clCall | .clCancel | .clMark | .clSend _ | .clRet | .clTimeout => .closer
-  | .sRecv | .sSend _ | .sEnd | .envPut _ => .env
+  | .sRecv | .sSend _ | .sEnd | .envPut _ | .envLate _ => .env
 
 /-- the executable step function of both variants -/
 def stepG (pinned : Bool) (s : State) (l : Label) : Option State :=
@@ -631,6 +635,7 @@ def healthy (s : State) : Label → Bool
   -- ATP v1 sessions: bare work-done messages
   | .envPut (.v1done _) => decide (s.ver ≤ 1)
   | .envPut _ => false
+  | .envLate _ => false
   -- the caller's side of the contract: ReadSchema first, no Execute after Close has begun
   | .call .. => decide (s.rs = .finished) && decide (s.closer = .idle)
   | .rsSend ok => ok
